@@ -50,45 +50,88 @@ func checkC17(c *Ctx) {
 	// FR-PROV
 	fr := p.Method("renderState", "filterRaw")
 	if c.NeedFunc("FR-PROV", fr, "(*renderState).filterRaw") {
-		var raw *ssa.Parameter
+		family := exclusiveCallees(p, fr)
+		// raw parameters: the []byte parameter of filterRaw, and every []byte parameter of a family member that receives
+		// (a sub-slice of) a raw parameter at each call
+		rawParams := map[ssa.Value]bool{}
 		for _, prm := range fr.Params[1:] {
 			if _, ok := prm.Type().Underlying().(*types.Slice); ok {
-				raw = prm
+				rawParams[prm] = true
+			}
+		}
+		isRawSlice := func(v ssa.Value) bool {
+			for {
+				if rawParams[v] {
+					return true
+				}
+				sl, isSl := v.(*ssa.Slice)
+				if !isSl {
+					return false
+				}
+				v = sl.X
+			}
+		}
+		for round := 0; round < 4; round++ {
+			for g := range family {
+				if g == fr {
+					continue
+				}
+				for i, q := range g.Params {
+					if rawParams[q] {
+						continue
+					}
+					if _, ok := q.Type().Underlying().(*types.Slice); !ok {
+						continue
+					}
+					all, any := true, false
+					for f := range family {
+						eachInstr(f, func(in ssa.Instruction) {
+							if call, ok := in.(*ssa.Call); ok && call.Call.StaticCallee() == g && i < len(call.Call.Args) {
+								any = true
+								if !isRawSlice(call.Call.Args[i]) {
+									all = false
+								}
+							}
+						})
+					}
+					if any && all {
+						rawParams[q] = true
+					}
+				}
 			}
 		}
 		n := 0
-		var ins []ssa.Instruction
-		for in := range h.events[fr] {
-			ins = append(ins, in)
+		var fams []*ssa.Function
+		for g := range family {
+			fams = append(fams, g)
 		}
-		sort.Slice(ins, func(i, j int) bool { return ins[i].Pos() < ins[j].Pos() })
-		for _, in := range ins {
-			ev := h.events[fr][in]
-			if ev.kind == evMarkLen {
-				continue
+		sort.Slice(fams, func(i, j int) bool { return fams[i].Pos() < fams[j].Pos() })
+		for _, g := range fams {
+			var ins []ssa.Instruction
+			for in := range h.events[g] {
+				ins = append(ins, in)
 			}
-			n++
-			key := fmt.Sprintf("filterRaw:append#%d", n)
-			switch ev.kind {
-			case evConst:
-				c.Check(ev.s == "&lt;", "FR-PROV", key, in.Pos(), fmt.Sprintf("constant %q: only &lt; may be inserted", ev.s))
-			case evRaw:
-				call := in.(*ssa.Call)
-				v := call.Call.Args[1]
-				ok := false
-				for {
-					sl, isSl := v.(*ssa.Slice)
-					if !isSl {
-						break
-					}
-					v = sl.X
-					if v == ssa.Value(raw) {
-						ok = true
-					}
+			sort.Slice(ins, func(i, j int) bool { return ins[i].Pos() < ins[j].Pos() })
+			for _, in := range ins {
+				ev := h.events[g][in]
+				if ev.kind == evMarkLen {
+					continue
 				}
-				c.Check(ok, "FR-PROV", key, in.Pos(), "appended bytes must be a sub-slice of the raw-HTML parameter, got "+ev.desc)
-			default:
-				c.Viol("FR-PROV", key, in.Pos(), "filterRaw appends something that is neither a sub-slice of its input nor &lt;")
+				if ev.kind == evCall && family[ev.callee] {
+					continue // the helper's own appends are inspected
+				}
+				n++
+				key := fmt.Sprintf("%s:append#%d", g.Name(), n)
+				switch ev.kind {
+				case evConst:
+					c.Check(ev.s == "&lt;", "FR-PROV", key, in.Pos(), fmt.Sprintf("constant %q: only &lt; may be inserted", ev.s))
+				case evRaw:
+					call := in.(*ssa.Call)
+					_, isSl := call.Call.Args[1].(*ssa.Slice)
+					c.Check(isSl && isRawSlice(call.Call.Args[1]), "FR-PROV", key, in.Pos(), "appended bytes must be a sub-slice of the raw-HTML parameter, got "+ev.desc)
+				default:
+					c.Viol("FR-PROV", key, in.Pos(), "filterRaw appends something that is neither a sub-slice of its input nor &lt;")
+				}
 			}
 		}
 		if n < 1 {
@@ -145,13 +188,24 @@ func checkC17(c *Ctx) {
 
 // allCallSitesFiltered: every static call of fn lies behind a FilterTag != nil edge in its caller.
 func allCallSitesFiltered(p *Program, fn *ssa.Function) bool {
+	return allCallSitesFilteredIn(p, fn, map[*ssa.Function]bool{})
+}
+
+// allCallSitesFilteredIn: every static call of fn is dominated by FilterTag != nil in its caller, or the caller is itself
+// only ever called where the filter is known to be set.
+func allCallSitesFilteredIn(p *Program, fn *ssa.Function, busy map[*ssa.Function]bool) bool {
+	if busy[fn] {
+		return false
+	}
+	busy[fn] = true
+	defer delete(busy, fn)
 	n := 0
 	ok := true
 	for _, caller := range p.Funcs {
 		eachInstr(caller, func(in ssa.Instruction) {
 			if call, isC := in.(*ssa.Call); isC && call.Call.StaticCallee() == fn {
 				n++
-				if !filterNonNilDominates(caller, call.Block()) {
+				if !filterNonNilDominates(caller, call.Block()) && !allCallSitesFilteredIn(p, caller, busy) {
 					ok = false
 				}
 			}
